@@ -294,6 +294,10 @@ func runMulti(out *vh.Out, rng *vh.Rng, runNo int) {
 		panic(err)
 	}
 	m.supp = gpbft.SupplementalData{PowerTable: nextCid}
+	// non-zero commitments: the decision's aggregate covers them, so a certificate that loses them does not verify
+	for i := range m.supp.Commitments {
+		m.supp.Commitments[i] = byte(rng.Intn(256))
+	}
 	m.unanimous = rng.Intn(3) == 0
 
 	delta := time.Duration(20+rng.Intn(200)) * time.Millisecond
